@@ -6,16 +6,19 @@ VARIABLE x
 Obs == ndJsonDeserialize(IOEnv.VERIF_OBS)
 fG == <<102,105,101,108,100,71>> fH == <<102,105,101,108,100,72>>
 fB == <<102,105,101,108,100,66>> fC == <<102,105,101,108,100,67>> fD == <<102,105,101,108,100,68>> fE == <<102,105,101,108,100,69>>
-t_ren == <<114,101,110>> t_st == <<115,116>>
-\* the probe rule AFTER the two preceding items (set_state k=v, id st ; fieldA -> fieldB, id ren)
+t_ren == <<114,101,110>> t_st == <<115,116>> t_pre == <<112,114,101>>
+\* the probe rule AFTER the two preceding items (set_state k=v, id st ; replace_string on fieldK, id pre ; fieldA -> fieldB and fieldK -> fieldK1, fieldK2, id ren)
 Rule == [ls |-> [cat |-> <<99>>, prod |-> <<119,105,110,100,111,119,115>>, svc |-> <<>>],
          tags |-> <<(<<97,116,116,97,99,107,46,116,49,48,48,48>>)>>, corr |-> FALSE,
          items |-> <<[field |-> fB, vals |-> <<VStr("str", <<102,111,111,STAR>>, <<>>), VStr("str", <<98,97,114>>, <<>>)>>, applied |-> <<t_ren>>],
                      [field |-> fC, vals |-> <<VNull>>, applied |-> <<>>],
                      [field |-> fD, vals |-> <<VNum(<<5, 1>>)>>, applied |-> <<>>],
-                     [field |-> fG, vals |-> <<VFieldRef(fH, 0, 0)>>, applied |-> <<>>]>>,
+                     [field |-> fG, vals |-> <<VFieldRef(fH, 0, 0)>>, applied |-> <<>>],
+                     \* fieldK: kv, renamed by `ren` to fieldK1 and fieldK2 (two items, both processed by ren)
+                     [field |-> <<102,105,101,108,100,75,49>>, vals |-> <<VStr("str", <<107,119>>, <<>>)>>, applied |-> <<t_pre, t_ren>>],
+                     [field |-> <<102,105,101,108,100,75,50>>, vals |-> <<VStr("str", <<107,119>>, <<>>)>>, applied |-> <<t_pre, t_ren>>]>>,
          fields |-> <<[name |-> fB, applied |-> <<t_ren>>], [name |-> fE, applied |-> <<>>]>>,
-         applied |-> <<t_st, t_ren>>, state |-> <<(<<(<<107>>), (<<118>>)>>)>>,
+         applied |-> <<t_st, t_pre, t_ren>>, state |-> <<(<<(<<107>>), (<<118>>)>>)>>,
          attrs |-> <<[name |-> <<115,101,118,101,114,105,116,121,95,115,99,111,114,101>>, kind |-> "int", n |-> 5, s |-> <<>>],
                      [name |-> <<108,101,118,101,108>>, kind |-> "level", n |-> 4, s |-> <<>>],
                      [name |-> <<97,117,116,104,111,114>>, kind |-> "str", n |-> 0, s |-> <<109,101>>]>>]
@@ -51,15 +54,21 @@ PreGate(G, j) == RuleGate(G, Rule) /\ ItemGate(G, Rule.items[j], Rule) /\ Prefil
 MechPActsOnItem(G, j) == PreGate(G, j) /\ SecondCheck(G, Rule.items[j].field)
 MechPActsOnRef(G, j, n) == PreGate(G, j) /\ SecondCheck(G, n)
 
+\* the rule as a post-processing item sees it: everything applied to it so far, incl. the first
+\* post-processing item (absent for pp = "none")
+RulePP(pp) == [Rule EXCEPT !.applied = IF pp = "none" THEN @ ELSE Append(@, <<102,105,114,115,116>>)]
 Clause(o) ==
-    IF ~o.ret.ok THEN (IF o.ret.sigma THEN "GateConfigurationRejected" ELSE "NonSigmaException")
-    ELSE IF (\E j \in 1..4 : o.ret.out.items[j] # ActsOnItem(o.G, j, Rule)) \/ o.ret.out.refs # <<ActsOnFieldRef(o.G, 4, fH, Rule)>> THEN
-        (IF HasApplied(o.G.field) /\ (\A j \in 1..4 : o.ret.out.items[j] = MechActsOnItem(o.G, j))
+    IF o.pp # "-" THEN
+        (IF ~o.ret.ok THEN (IF o.ret.sigma THEN "GateConfigurationRejected" ELSE "NonSigmaException")
+         ELSE IF o.ret.out.rule # ActsOnRule(o.G, RulePP(o.pp)) THEN "GateIff:post-processing" ELSE "")
+    ELSE IF ~o.ret.ok THEN (IF o.ret.sigma THEN "GateConfigurationRejected" ELSE "NonSigmaException")
+    ELSE IF (\E j \in 1..6 : o.ret.out.items[j] # ActsOnItem(o.G, j, Rule)) \/ o.ret.out.refs # <<ActsOnFieldRef(o.G, 4, fH, Rule)>> THEN
+        (IF HasApplied(o.G.field) /\ (\A j \in 1..6 : o.ret.out.items[j] = MechActsOnItem(o.G, j))
                                  /\ o.ret.out.refs = <<MechActsOnRef(o.G, 4, fH)>>
          THEN "dev:Dev_FieldAppliedConditionSecondCheck"
-         ELSE IF (\A j \in 1..4 : o.ret.out.items[j] = MechPActsOnItem(o.G, j)) /\ o.ret.out.refs = <<MechPActsOnRef(o.G, 4, fH)>>
+         ELSE IF (\A j \in 1..6 : o.ret.out.items[j] = MechPActsOnItem(o.G, j)) /\ o.ret.out.refs = <<MechPActsOnRef(o.G, 4, fH)>>
          THEN "dev:Dev_FieldGroupPrefilterOverReferences"
-         ELSE IF \E j \in 1..4 : o.ret.out.items[j] # ActsOnItem(o.G, j, Rule) THEN "GateIff:detection-item"
+         ELSE IF \E j \in 1..6 : o.ret.out.items[j] # ActsOnItem(o.G, j, Rule) THEN "GateIff:detection-item"
          ELSE "GateIff:field-reference")
     ELSE IF \E j \in 1..2 : o.ret.out.fields[j] # ActsOnFieldEntry(o.G, j, Rule) THEN "GateIff:field-list"
     ELSE IF o.ret.out.rule # ActsOnRule(o.G, Rule) THEN "GateIff:rule"
